@@ -401,6 +401,8 @@ def fam_listfind(v, n):
         elif x < 0.3:
             flags["st"] = True
             L = [rng.choice([" ", ""]) + s for s in L]
+        if rng.random() < 0.5:      # ONE FindInList instance serves every search on this list (as a long-lived tool would)
+            flags["reuse"] = "u%d" % len(ops)
         for _ in range(12):
             base = rng.choice(leaves) if rng.random() < 0.8 else None
             if base is not None and rng.random() < 0.3:
@@ -479,7 +481,7 @@ def materialise(v, wid, leaves, config, junk=False):
     return ops
 
 
-def tree_universe(v, nleaf=None):
+def tree_universe(v, nleaf=None, leaf_words=False):
     """leaves of path-backed leaf types, free values without glob metacharacters"""
     from gen import NAMES, re_is_free
     rng = v.rng
@@ -500,7 +502,12 @@ def tree_universe(v, nleaf=None):
                 fields[i] = (k, rng.choice(names) if re_is_free(r) else v.value((k, r), concrete_only=True))
         else:
             label = rng.choice(leaf_labels)
-            fields = [(k, (rng.choice(names) if re_is_free(r) else v.value((k, r), concrete_only=True))) for k, r in v.tdict[label]]
+            lk0 = v.tdict[label][-1][0]
+            # (only for the model-vs-code families: the ground-truth oracles type an ancestor STRING naturally, and a
+            #  node named like an extension reads as a file there)
+            leaf_vocab = [w for w in (v.closed.get(lk0) or []) if w not in v.aliases]
+            fields = [(k, ((rng.choice(leaf_vocab) if (leaf_words and leaf_vocab and rng.random() < 0.15) else rng.choice(names)) if re_is_free(r)
+                           else v.value((k, r), concrete_only=True))) for k, r in v.tdict[label]]
             base = (label, fields)
         if (label, fields) not in leaves:
             leaves.append((label, fields))
@@ -685,7 +692,7 @@ def fam_tree(v, n, model):
     ops = []
     for u in range(max(1, n // 25)):
         wid = "t%d" % u
-        leaves = tree_universe(v)
+        leaves = tree_universe(v, leaf_words=True)
         # the default configuration is what FindInAll / DataSid calls read
         cfg = default if rng.random() < 0.7 else rng.choice(configs)
         confusing = []
@@ -815,7 +822,7 @@ def fam_history(v, n, model):
     ops = []
     for u in range(max(1, n // 30)):
         wid = "h%d" % u
-        leaves = tree_universe(v, nleaf=rng.randint(2, 4))
+        leaves = tree_universe(v, nleaf=rng.randint(2, 4), leaf_words=True)
         pool = []
         for label, fields in leaves:
             for i in range(1, len(fields) + 1):
@@ -895,6 +902,13 @@ def fam_history(v, n, model):
             ops += [dict(r) for r in reads]
             ops.append({"op": "world", "w": wid, "do": "update", "sid": target, "config": default, "data": [["comment", '"second"'], ["status", "1"]]})
             ops += [dict(r) for r in reads]
+            # a NEW key written with null next to unchanged keys; a value replaced by an equal-looking one (1 -> true)
+            ops.append({"op": "world", "w": wid, "do": "update", "sid": target, "config": default, "data": [["comment", '"second"'], ["approved", "null"]]})
+            ops.append({"op": "world", "w": wid, "do": "get_data", "sid": target, "config": default, "enc": "str"})
+            ops.append({"op": "world", "w": wid, "do": "update", "sid": target, "config": default, "data": [["status", "true"]]})
+            ops.append({"op": "world", "w": wid, "do": "get_data", "sid": target, "config": default, "enc": "str", "reuse": True})
+            ops.append({"op": "world", "w": wid, "do": "update", "sid": target, "config": default, "data": [["status", "1.0"], ["frames", "0"]]})
+            ops.append({"op": "world", "w": wid, "do": "get_data_all", "sid": target, "enc": "str"})
         # a version workflow on one leaf: ask for the last, create a greater one, ask again
         label, fields = leaves[0]
         keys = [k for k, _ in fields]
